@@ -73,6 +73,30 @@ T = {
              tech="Coq proof over source-derived CLI model + real-binary differential oracle"),
 }
 
+# Round-4 (extension round) additions, appended to the level text of each property.
+EXT = {
+ 'C01': "",
+ 'C02': " Round 4: clip/mask/nested-image buffers have exactly the layer's size for any nesting (size arguments of the Pixmap::new/Mask::new sites translated from source), pattern tiles / filter results / turbulence octaves proved to follow the document (the registered classes), box-blur / IIR / convolve-wrap loop bounds for all radii and sizes, checked subregion translation total for all regions, and a generated ledger of every allocation and panic site of resvg/src matched against proved or reviewed discharges.",
+ 'C03': " Round 4: frame clause of the pre-pass (skeleton unchanged, nothing added, every removed reference lies on a cycle of length <= 2 of the original document) with the scan scopes derived from source; nested documents through image/feImage are bounded at depth 1 for every file system incl. self-including files (sub-document options derived from source); duplicate ids exercised through all correspondences.",
+ 'C04': " Round 4: every produced filter / mask (for any user sequence, cache hits included) has a positive region, at least one primitive, positive sub-regions and non-negative stdDeviation; all four branches of resolve_primitive_region.",
+ 'C05': " Round 4: hidden paths' paint servers are collected (paths carry visibility in the model), and the arms/guards of loop_over_paint_servers and of the four collection loops are source-derived tables proved equal to the model's node_paints.",
+ 'C06': "",
+ 'C07': " Round 4: xmlwriter/writer escaping modelled over byte lists from the xmlwriter source named in Cargo.lock and writer.rs's replace calls: the splice loop is replace_all, unescape(escape_text s) = s, escaped text is well-formed, attribute values never contain their closing quote (guarded + refuted pair for the registered unescaped-xml-char class).",
+ 'C08': " Round 4: every id write site of writer.rs (13 definition, 11 reference sites, data-flow traced from source) writes prefix ++ id exactly once and the parser's reading of a written reference equals the written definition id; conditionally written numeric attributes: not written implies value = parser default (11 sites, conditions and defaults derived from source).",
+ 'C09': "",
+ 'C10': "",
+ 'C11': " Round 4: cache-registration model (mask/clip step tables from mask.rs/clippath.rs, id generator): every node of the property's own non-rendered list converts to (cache, parent) unchanged, for any number of insertions at any depth, so the sequence of cache registrations and generated ids is unchanged; cache-reg correspondence against the real tree's resolved ids.",
+ 'C12': " Round 4: the abs-transform product invariant over clip-path / mask / pattern / feImage sub-trees at any depth (guarded by the registered pattern_pushed_transform class, with refuted witness), locality of the forest invariant, and the complete table of transform assignment sites of the parser as a source lock.",
+ 'C13': " Round 4: position-dependent filter primitives translated from source (turbulence offset/sample, point and spot light mapping, canvas draw position): offset invariant, lights equivariant for every integer frame move, turbulence phase exact iff the region origin is the layer origin (guarded by the registered clamped-filter-region-origin class, with refuted witness from a real trace).",
+ 'C14': " Round 4: the 8-bit layer composite: draw_pixmap's source-over rounds the exact rational over within 1/2 level (all 65 536 pairs, tied by a complete sweep of the real tiny-skia), nested layers and single draws are bit-exact, n overlapping draws through a layer differ from direct painting by at most (3n-1)/2 levels, attained at n = 2 (registered class layer-requantisation).",
+ 'C15': " Round 4: nesting to any depth: mask-on-mask factors stay in [0,1] and multiply, any stack of clip/mask/opacity factors never increases the result, exact u8 mask chains (apply_mask + luminance in binary32) never increase a channel and are 0 where any level has no coverage.",
+ 'C16': " Round 4: feConvolveMatrix keeps pixels valid for every kernel, divisor, bias, edge mode and window (arbitrary binary32 window sums incl. inf/NaN, by rounding monotonicity, no enumeration) over leaf definitions cut from convolve_matrix.rs; validity of whole chains by induction over arbitrary primitive lists incl. arithmetic, over and convolve steps and the on-demand colour-space conversions.",
+ 'C17': "",
+ 'C18': " Round 4: primitiveUnits=objectBoundingBox parameter scaling (stdDeviation, dx/dy, radius, displacement scale) equals the mapped user-space primitive for every box and attribute value, filter and mask conversion with their keyed caches modelled in source order: for any user sequence each user gets the definition resolved for its own box and equal ids mean equal definitions.",
+ 'C19': " Round 4: lookup by id over the forest with clip/mask/pattern sub-trees equals lookup on the renderable tree (an id that exists only inside a sub-tree is never found).",
+ 'C20': "",
+}
+
 
 def main():
     mp = os.path.join(VERIF, 'MANIFEST.json')
@@ -87,7 +111,7 @@ def main():
             "evidence_file": "evidence/%s.json" % pid,
             "replay_cmd_template": "./check %s --replay {path}" % pid,
             "engine": "coq",
-            "level_claimed": {"category": "proof", "text": t['text'], "design_ref": "DESIGN.md section 4 %s and 0.1" % pid},
+            "level_claimed": {"category": "proof", "text": t['text'] + EXT.get(pid, ''), "design_ref": "DESIGN.md section 4 %s and 0.1" % pid},
             "level_note": COMMON_NOTE + t['note'],
             "technique": t['tech'],
         }
